@@ -6,6 +6,7 @@
 package zzverifself
 
 import (
+	"context"
 	"bytes"
 	"encoding/binary"
 	"encoding/hex"
@@ -233,3 +234,22 @@ func VerifSELFIfConv() {
 	}
 	nd.Assert("self.ifconv.k2", nd.Or(nd.And(x == y, k == 2), nd.And(x != y, k == 7)))
 }
+
+func VerifSELFContextCancel() {
+	ctx, cancel := context.WithCancel(context.Background())
+	nd.Assert("self.ctx.live", ctx.Err() == nil)
+	child := context.WithValue(ctx, selfKey{}, 7)
+	cancel()
+	nd.Assert("self.ctx.cancelled", ctx.Err() == context.Canceled)
+	nd.Assert("self.ctx.child-cancelled", child.Err() != nil)
+	nd.Assert("self.ctx.value", child.Value(selfKey{}) == 7)
+	ch := make(chan int, 2)
+	ch <- int(nd.Int8("x"))
+	close(ch)
+	v, ok := <-ch
+	_, ok2 := <-ch
+	nd.Assert("self.chan", ok && !ok2 && v == int(nd.Int8("x")))
+	nd.Reach("self.ctx")
+}
+
+type selfKey struct{}
